@@ -2,6 +2,7 @@ package main
 
 import (
 	"github.com/nspcc-dev/neo-go/pkg/core/interop/interopnames"
+	"github.com/nspcc-dev/neo-go/pkg/core/native/nativehashes"
 	"github.com/nspcc-dev/neo-go/pkg/core/state"
 	"github.com/nspcc-dev/neo-go/pkg/io"
 	"github.com/nspcc-dev/neo-go/pkg/neotest"
@@ -25,7 +26,78 @@ import (
 //
 // NoPay: only `dummy()`; a NEP-17 transfer to it fails in CallFromNative (method not found).
 
-func walletScript() (script []byte, offPay, offCall int) {
+// asm: a two-pass assembler with long (4-byte offset) jumps, for the re-entrant part of the Wallet.
+type asmItem struct {
+	code  []byte
+	jmp   opcode.Opcode // != 0: a jump to label
+	label string        // jump target or, with code == nil and jmp == 0, a label definition
+}
+
+func asmBytes(f func(w *io.BinWriter)) asmItem {
+	w := io.NewBufBinWriter()
+	f(w.BinWriter)
+	return asmItem{code: w.Bytes()}
+}
+
+func assemble(items []asmItem) []byte {
+	pos := map[string]int{}
+	off := 0
+	for _, it := range items {
+		switch {
+		case it.jmp != 0:
+			off += 5
+		case it.code == nil:
+			pos[it.label] = off
+		default:
+			off += len(it.code)
+		}
+	}
+	var out []byte
+	for _, it := range items {
+		switch {
+		case it.jmp != 0:
+			rel := int32(pos[it.label] - len(out))
+			out = append(out, byte(it.jmp), byte(rel), byte(rel>>8), byte(rel>>16), byte(rel>>24))
+		case it.code != nil:
+			out = append(out, it.code...)
+		}
+	}
+	return out
+}
+
+// reentrantPay: onNEP17Payment of the Wallet, extended: a payment with null data AND null `from` (a GAS mint: the
+// reward of a vote / transfer / blocking) while the contract is armed (storage key "a" holds an account X) disarms it
+// and calls NEO.transfer(self, X, 1, null) -- the receiver re-enters the token contract on its own account from inside
+// the reward payment. Everything else behaves as before.
+func reentrantPay(neoHash util.Uint160) []byte {
+	op := func(ops ...opcode.Opcode) asmItem {
+		return asmBytes(func(w *io.BinWriter) { emit.Opcodes(w, ops...) })
+	}
+	sys := func(name string) asmItem { return asmBytes(func(w *io.BinWriter) { emit.Syscall(w, name) }) }
+	str := func(s string) asmItem { return asmBytes(func(w *io.BinWriter) { emit.String(w, s) }) }
+	return assemble([]asmItem{
+		asmBytes(func(w *io.BinWriter) { emit.InitSlot(w, 0, 3) }),
+		op(opcode.LDARG2, opcode.ISNULL), {jmp: opcode.JMPIFNOTL, label: "notnull"},
+		op(opcode.LDARG0, opcode.ISNULL), {jmp: opcode.JMPIFNOTL, label: "ret"},
+		str("a"), sys(interopnames.SystemStorageGetContext), sys(interopnames.SystemStorageGet),
+		op(opcode.DUP, opcode.ISNULL), {jmp: opcode.JMPIFL, label: "dropret"},
+		str("a"), sys(interopnames.SystemStorageGetContext), sys(interopnames.SystemStorageDelete),
+		op(opcode.PUSHNULL, opcode.SWAP, opcode.PUSH1, opcode.SWAP), sys(interopnames.SystemRuntimeGetExecutingScriptHash),
+		op(opcode.PUSH4, opcode.PACK, opcode.PUSH15), str("transfer"),
+		asmBytes(func(w *io.BinWriter) { emit.Bytes(w, neoHash.BytesBE()) }),
+		sys(interopnames.SystemContractCall), op(opcode.DROP, opcode.RET),
+		{label: "dropret"}, op(opcode.DROP),
+		{label: "ret"}, op(opcode.RET),
+		{label: "notnull"},
+		op(opcode.LDARG2), asmBytes(func(w *io.BinWriter) { emit.Instruction(w, opcode.ISTYPE, []byte{0x40}) }),
+		{jmp: opcode.JMPIFNOTL, label: "throw"},
+		op(opcode.LDARG2, opcode.PUSH2, opcode.PICKITEM, opcode.PUSH15, opcode.LDARG2, opcode.PUSH1, opcode.PICKITEM, opcode.LDARG2, opcode.PUSH0, opcode.PICKITEM),
+		sys(interopnames.SystemContractCall), op(opcode.DROP, opcode.RET),
+		{label: "throw"}, str("rej"), op(opcode.THROW),
+	})
+}
+
+func walletScriptOld() (script []byte, offPay, offCall int) {
 	tail := io.NewBufBinWriter() // from "LDARG2 PUSH2 PICKITEM" to the end
 	emit.Opcodes(tail.BinWriter, opcode.LDARG2, opcode.PUSH2, opcode.PICKITEM)
 	emit.Opcodes(tail.BinWriter, opcode.PUSH15)
@@ -77,9 +149,38 @@ func mkContract(sender util.Uint160, name string, script []byte, methods []manif
 	}
 }
 
+// walletScript: onNEP17Payment (re-entrant variant), call(hash, method, args), arm(x), disarm().
+func walletScript() (script []byte, offPay, offCall, offArm, offDisarm int) {
+	w := io.NewBufBinWriter()
+	w.WriteBytes(reentrantPay(nativehashes.NeoToken))
+	offCall = w.Len()
+	emit.InitSlot(w.BinWriter, 0, 3)
+	emit.Opcodes(w.BinWriter, opcode.LDARG2, opcode.PUSH15, opcode.LDARG1, opcode.LDARG0)
+	emit.Syscall(w.BinWriter, interopnames.SystemContractCall)
+	emit.Opcodes(w.BinWriter, opcode.RET)
+	offArm = w.Len()
+	emit.InitSlot(w.BinWriter, 0, 1)
+	emit.Opcodes(w.BinWriter, opcode.LDARG0)
+	emit.String(w.BinWriter, "a")
+	emit.Syscall(w.BinWriter, interopnames.SystemStorageGetContext)
+	emit.Syscall(w.BinWriter, interopnames.SystemStoragePut)
+	emit.Opcodes(w.BinWriter, opcode.PUSHT, opcode.RET)
+	offDisarm = w.Len()
+	emit.String(w.BinWriter, "a")
+	emit.Syscall(w.BinWriter, interopnames.SystemStorageGetContext)
+	emit.Syscall(w.BinWriter, interopnames.SystemStorageDelete)
+	emit.Opcodes(w.BinWriter, opcode.PUSHT, opcode.RET)
+	if w.Err != nil {
+		panic(w.Err)
+	}
+	return w.Bytes(), 0, offCall, offArm, offDisarm
+}
+
 func walletContract(sender util.Uint160, name string) *neotest.Contract {
-	script, offPay, offCall := walletScript()
+	script, offPay, offCall, offArm, offDisarm := walletScript()
 	return mkContract(sender, name, script, []manifest.Method{
+		{Name: "arm", Offset: offArm, Parameters: []manifest.Parameter{manifest.NewParameter("x", smartcontract.Hash160Type)}, ReturnType: smartcontract.BoolType},
+		{Name: "disarm", Offset: offDisarm, Parameters: []manifest.Parameter{}, ReturnType: smartcontract.BoolType},
 		{
 			Name:   manifest.MethodOnNEP17Payment,
 			Offset: offPay,
